@@ -11,7 +11,7 @@ META = dict(
                'fake_trx.FakeTRX.handle_data_msg', 'transceiver.Transceiver.handle_data_msg', 'data_if.DATAInterface.send_msg', 'data_msg.TxMsg.trans', 'trx_list.TRXList'],
     bounds=dict(quick='2..3 transceivers, every choice of sender; per transceiver: fixed tuning or hopping with |MA| in {1,2,3} (all kind combinations for n=2, sampled for n=3); '
                       'power state of every recipient, all frequencies, MA entries, HSN 0..63, MAIO 0..63, FN (all), TN, attenuation 0..60, mute flags symbolic; header versions enumerated/sampled',
-                thorough='2..6 transceivers, sampled kind/version combinations (VERIF_SEED), same symbolic variables'),
+                thorough='2..6 transceivers (all 27 three-transceiver kind combinations; 4 transceivers with two hopping ones, 5..6 with one), sampled kind/version combinations (VERIF_SEED), same symbolic variables'),
     stubs=['fake socket', 'logging', 'list indexing by symbolic index (ite selection)'],
     outside=['|MA| > 3 in this harness (the generator itself is covered for |MA| <= 64 by C07)', 'more than 6 transceivers', 'clock-driven dispatch (C03)'],
     assumptions=['default RSSI/ToA simulation parameters so that simulated values stay in protocol range (attenuation <= 60)', 'reference hopping algorithm of C07'],
@@ -34,8 +34,10 @@ def jobs(tier, seed):
         add(kinds, [rnd.randint(0, 1) for _ in range(3)], rnd.randrange(3))
     if tier == 'thorough':
         for n in (4, 5, 6):
-            for _ in range(10 if n == 4 else 5):
-                kinds = [rnd.choice(['fixed', 'fixed', 'hop1', 'hop2']) for _ in range(n)]
+            for _ in range({4: 8, 5: 5, 6: 4}[n]):
+                # at most two hopping transceivers per configuration: every further one multiplies the paths (MA index cases)
+                kinds = ['fixed'] * n
+                for i in rnd.sample(range(n), 2 if n == 4 else 1): kinds[i] = rnd.choice(['hop1', 'hop2'])
                 add(kinds, [rnd.randint(0, 1) for _ in range(n)], rnd.randrange(n))
     else:
         add(['fixed', 'fixed', 'fixed', 'hop2'], [0, 1, 1, 0], 3)
